@@ -1,5 +1,161 @@
 """C12 - a datagram is interpreted from its own bytes only (Engine B differential + Engine A confirmation)."""
-from vflib import core, unitrun
+import random
+import struct
+
+from vflib import core, simrun, unitrun
+
+RESIDUES = [("keep", 0, b""), ("zeros", 1, b"\x00"), ("ff", 1, b"\xff"), ("c00c", 1, b"\xc0\x0c"),
+            ("plausible", 1, b"\x05paaaa\x01t\x07example\x03com\x00\x00\x0a\x00\x01\xc0\x0c\x00\x0a\x00\x01\x00\x00\x00\x00\x00\x04abcd"),
+            ("ascending", 1, bytes(range(1, 256)))]
+
+
+def _server_run(params, residue):
+    """One seeded session against the real server with the given receive-buffer residue policy; returns the
+    complete output trace (everything the server sent, wrote to its tun, and its final users[] table)."""
+    from simnet import hostile, mclient, proto, scen
+    from simnet.scen import US
+    rng = random.Random(params["rseed"])
+    sim = scen.Sim("c12s-%d-%s" % (params["idx"], residue[0]), params["seed"])
+    try:
+        k = sim.k
+        srv = sim.server()
+        if not srv.alive():
+            return None
+        srv.residue = (residue[1], residue[2])
+        dl = proto.labels_from_dotted(sim.domain.encode())
+        A = mclient.ModelClient("10.53.2.1", (scen.SERVER_IP, 53), sim.domain, sim.password, random.Random(rng.getrandbits(32)),
+                                qtype=rng.choice(list(proto.QTYPES.values())))
+        Bc = mclient.ModelClient("10.53.2.2", (scen.SERVER_IP, 53), sim.domain, sim.password, random.Random(rng.getrandbits(32)))
+        k.add_actor(A.ip, A)
+        k.add_actor(Bc.ip, Bc)
+        if not A.connect() or not Bc.connect():
+            return None
+        if rng.random() < 0.5:
+            A.option(b"l")
+        for i in range(params["n"]):
+            # "another client" first leaves a long datagram in the buffer ...
+            long_frame = proto.make_frame(Bc.tun_ip, "10.9.0.1", 5000 + i, rng.choice([100, 150]), "random", rng)
+            Bc.up_seq = (Bc.up_seq + 1) & 7
+            Bc.query(Bc.data_labels(Bc.up_seq, 0, 1, proto.deflate(long_frame)[:110]))
+            k.run(k.now + 3000)
+            # ... then a short / truncated / pointer-ending datagram arrives
+            kind = rng.randrange(6)
+            if kind == 0:
+                d = hostile.dns_malformed(rng, dl)
+            elif kind == 1:
+                full = proto.build_query(rng.getrandbits(16) or 1, A.ping_labels(), A.qtype, edns0=rng.random() < 0.5)
+                d = full[:rng.randint(12, len(full))]
+            elif kind == 2:
+                # name = few labels, then a pointer to (or just beyond) the end of the datagram
+                lab = b"\x05" + bytes(rng.choice(b"abcdefpz0123") for _ in range(5))
+                body = lab
+                tgt = 12 + len(body) + 2 + rng.choice([-1, 0, 0, 1, 2, 4, 5])
+                d = struct.pack(">HHHHHH", rng.getrandbits(16) or 1, 0x0100, 1, 0, 0, 0) + body + struct.pack(">H", 0xC000 | (tgt & 0x3FFF))
+                if rng.random() < 0.5:
+                    d += struct.pack(">HH", A.qtype, 1)[:rng.randint(0, 4)]
+            elif kind == 3:
+                d = proto.RAW_MAGIC[:rng.randint(0, 3)] + bytes(rng.getrandbits(8) for _ in range(rng.randint(0, 3)))
+            elif kind == 4:
+                d = hostile.tunnel_shaped(rng, dl, userids=(A.userid,))
+                d = d[:rng.randint(12, len(d))]
+            else:
+                d = proto.build_query(rng.getrandbits(16) or 1, A.ping_labels(), A.qtype)
+            src = rng.choice([A, Bc])
+            k.transmit((src.ip, src.sport), (scen.SERVER_IP, 53), d)
+            k.run(k.now + 3000)
+        k.run(k.now + 200000)
+        trace = []
+        for ev in k.log:
+            if ev[2] == "srv" and ev[1] in ("send", "tun_write"):
+                trace.append((ev[1], ev[3].get("dst"), bytes(ev[3]["data"])))
+        trace.append(("alive", srv.alive(), sim.health(srv)))
+        trace.append(("table", repr([sorted(r.items()) for r in srv.snapshot])))
+        return trace
+    finally:
+        sim.close()
+
+
+def _client_run(params, residue):
+    from simnet import hostile_cli, mserver, proto, scen
+    from simnet.scen import US
+    rng = random.Random(params["rseed"])
+    sim = scen.Sim("c12c-%d-%s" % (params["idx"], residue[0]), params["seed"])
+    try:
+        k = sim.k
+        ctx = {"downenc": "T", "password": sim.password, "userid": 3}
+        state = {"n": 0}
+
+        def hook(step, q, default, src):
+            ctx["downenc"] = hs.downenc
+            if q is None or default is None:
+                return default
+            state["n"] += 1
+            r = rng.random()
+            if r < params["p"]:
+                cls = rng.choice(["truncate", "truncate", "rdlen_lie", "name_tricks", "txt_chunks"])
+                d = hostile_cli.gen(rng, q, cls, step, ctx)
+                if d is not None:
+                    # a longer well-formed datagram first (it will linger in the buffer), then the short one, then the real answer
+                    filler = mserver.build_answer(q, bytes(rng.getrandbits(8) for _ in range(120)), hs.downenc, qid=(q.id + 1) & 0xFFFF)
+                    return [filler, d, default]
+            return default
+
+        hs = mserver.HandshakeServer(scen.SERVER_IP, sim.domain, sim.password, hook=hook)
+        k.add_actor(hs.ip, hs)
+        opts = ["-r"] + (["-T", params["qtype"]] if params["qtype"] else [])
+        c = sim.client("cli0", "10.53.1.1", scen.SERVER_IP, opts)
+        c.residue = (residue[1], residue[2])
+        sim.run_until(lambda: sim.client_in_tunnel(c) or not c.alive(), 100 * US)
+        for i in range(6):
+            if c.alive():
+                k.offer_tun("cli0", proto.make_frame("10.9.0.2", "10.9.0.1", i + 1, 60, "random", rng), i + 1)
+                k.run(k.now + US)
+        trace = []
+        for ev in k.log:
+            if ev[2] == "cli0" and ev[1] in ("send", "tun_write", "system"):
+                trace.append((ev[1], bytes(ev[3].get("data", ev[3].get("cmd", b"")))))
+        h = sim.health(c)
+        trace.append(("health", h if not h.startswith("sanitizer") else "sanitizer"))
+        return trace
+    finally:
+        sim.close()
+
+
+def scn(params):
+    out = {"violations": [], "nontrivial": [], "stats": {"residue_runs": 0, "traces_compared": 0, "trace_events_compared": 0}, "evaluations": 0, "sets": {}}
+    fn = _server_run if params["side"] == "server" else _client_run
+    base = None
+    for residue in RESIDUES:
+        tr = fn(params, residue)
+        out["stats"]["residue_runs"] += 1
+        if tr is None:
+            out["inconclusive"] = "setup-failed"
+            return out
+        if any(x[0] in ("health",) and x[1] == "sanitizer" for x in tr if len(x) > 1):
+            out["inconclusive"] = "sanitizer-abort"          # C05/C06 judge those
+            return out
+        if base is None:
+            base = (residue[0], tr)
+            continue
+        out["stats"]["traces_compared"] += 1
+        out["stats"]["trace_events_compared"] += len(tr)
+        if tr != base[1]:
+            i = 0
+            while i < min(len(tr), len(base[1])) and tr[i] == base[1][i]:
+                i += 1
+            a = base[1][i] if i < len(base[1]) else None
+            b_ = tr[i] if i < len(tr) else None
+            out["violations"].append(("C12:system-output-depends-on-residue:%s" % params["side"],
+                                      "the %s's outputs differ between receive-buffer residue '%s' and '%s' (first difference at output #%d)"
+                                      % (params["side"], base[0], residue[0], i),
+                                      {"seed": params["seed"], "with_" + base[0]: repr(a)[:500], "with_" + residue[0]: repr(b_)[:500]}))
+            break
+    out["evaluations"] = out["stats"]["residue_runs"]
+    if base is not None and len(base[1]) > 10:
+        out["nontrivial"].append(repr(("system", params["side"], params.get("qtype"), len(base[1]) // 50)))
+    if params["idx"] < 2:
+        out["sample"] = {"engine": "A", "side": params["side"], "outputs_per_run": len(base[1]) if base else 0, "residues": [r[0] for r in RESIDUES]}
+    return out
 
 
 def run(ctx):
@@ -11,7 +167,13 @@ def run(ctx):
                 "byte, names ending in pointers that target offsets around the datagram end, label lengths exceeding "
                 "the bytes present, answers of all 7 record types (built by the tree's own encoder) cut at every byte, "
                 "with RDLENGTH / TXT string length inflated, CNAME targets replaced by pointers to the end region. "
-                "evaluations = decode calls; non-trivial = distinct (datagram kind, decode outcome) classes.")
+                "Engine A confirmation: the real server (two model-client sessions, each short/truncated/pointer-ending "
+                "datagram preceded by a longer one from the other client) and the real client (model server sending a longer "
+                "answer, a truncated / RDLENGTH-lying / pointer-tricked one, then the real one) are each run under 6 residue "
+                "policies of the simulated recv (keep = true stale bytes, zeros, 0xFF, C0 0C, a plausible continuation, ascending "
+                "bytes); every datagram sent, every tun write, every system() command and the final users[] table must be "
+                "identical. evaluations = decode calls + whole-program runs; non-trivial = distinct (datagram kind, decode "
+                "outcome) classes + system traces compared.")
     res.assumptions = ["a read past the end that cannot influence any output is not a violation (property as stated)",
                        "sanitizers cannot see this class: the 64 KB buffer is fully addressable"]
     res.min_nontrivial = 12
@@ -20,4 +182,26 @@ def run(ctx):
         drv = b.unit("residue", ["residue.c"], objs=["dns", "read", "encoding", "base32", "base64", "base64u", "base128"], libs=())
         sh = ctx.jobs
         unitrun.run_sharded(res, "C12", drv, sh, lambda i: [i, sh, ctx.seed, rounds])
+        # Engine A confirmation: whole-program output traces under different receive-buffer residues
+        rng = random.Random(ctx.seed * 1213 + 12)
+        n = ctx.pick(48, 1200)
+        plist = [{"idx": i, "seed": ctx.seed * 100000 + i, "rseed": rng.getrandbits(32), "side": "server" if i % 2 == 0 else "client",
+                  "n": rng.randint(20, 60), "p": rng.choice([0.2, 0.5]), "qtype": rng.choice([None, "NULL", "TXT", "CNAME", "MX", "SRV"])}
+                 for i in range(n)]
+        if ctx.replay and "params" in (ctx.replay.get("witness") or {}):
+            plist = [ctx.replay["witness"]["params"]]
+        sysres = core.Result()
+        simrun.run_scenarios(sysres, b, scn, plist, jobs=ctx.jobs)
+        simrun.finalize_sets(sysres)
+        res.violations += sysres.violations
+        res.harness_errors += sysres.harness_errors
+        res.evaluations += sysres.evaluations
+        res.inconclusive += sysres.inconclusive
+        for kk, vv in sysres.inconclusive_why.items():
+            res.inconclusive_why[kk] = res.inconclusive_why.get(kk, 0) + vv
+        for sig in sysres.nontrivial:
+            res.nt(sig)
+        for kk, vv in sysres.extra.items():
+            res.extra["system_" + kk] = vv
+        res.samples += sysres.samples[:2]
     return res
